@@ -210,11 +210,16 @@ def inline_new_helpers(project, ref) -> int:
             body = _returns_to_assign(body, make)
             if body is None:
                 return None, None
-        for s in pre + body:
+        # spliced statements are positioned at the call site (a real line of the caller, and in statement order with the caller's own statements)
+        for s in pre + body + ([val] if val is not None else []):
             for n in ast.walk(s):
-                if not hasattr(n, "lineno"):
+                if isinstance(n, (ast.stmt, ast.expr, ast.excepthandler, ast.arg, ast.keyword)) or hasattr(n, "lineno"):
                     n.lineno = lineno
-                    n.col_offset = 0
+                    n.end_lineno = lineno
+                    if not hasattr(n, "col_offset"):
+                        n.col_offset = 0
+                    if not hasattr(n, "end_col_offset"):
+                        n.end_col_offset = 0
         return pre + body, val
 
     def target_of(node, f):
